@@ -340,3 +340,545 @@ Proof.
 Qed.
 
 End Total.
+
+(* ------------------------------------------------------------------------------------------ *)
+(* what Escape writes, seen by the parser's escape scanner *)
+
+(* first rune after a backslash that scanBackslash / scanBasicBackslash hand to scanCharEscape *)
+Definition first_ok (c : Z) : bool :=
+  negb (zmem c pl_assert_letters) && negb (zmem c pl_class_letters) &&
+  negb (c =? 112) && negb (c =? 80) && negb (c =? 107) && negb (c =? 60) && negb (c =? 39) &&
+  negb ((48 <=? c) && (c <=? 57)).
+
+(* \x and \u are followed by a hex digit, not by '{' *)
+Definition no_brace (body : list Z) : bool :=
+  match body with
+  | c :: t => if (c =? 120) || (c =? 117)
+              then match t with d :: _ => negb (d =? 123) | [] => false end
+              else true
+  | [] => false
+  end.
+
+Definition body_ok (body : list Z) : bool :=
+  match body with c :: _ => first_ok c && no_brace body && forallb (fun x => 0 <=? x) body | [] => false end.
+
+(* obligation on the generated metacharacter string: none of them starts another escape *)
+Lemma meta_first_ok : forallb (fun c => first_ok c && negb ((c =? 120) || (c =? 117)) && (0 <=? c)) meta = true.
+Proof. vm_compute. reflexivity. Qed.
+
+Lemma hex_char_facts d : 0 <= d < 16 -> hex_char d <> 123 /\ 0 <= hex_char d.
+Proof. intros H. pose proof (hex_char_range d H). lia. Qed.
+
+Lemma hex_nonneg_b d : 0 <= d < 16 -> (0 <=? hex_char d) = true.
+Proof. intros H. pose proof (hex_char_facts d H). lia. Qed.
+Lemma hex_ne_brace_b d : 0 <= d < 16 -> (hex_char d =? 123) = false.
+Proof. intros H. pose proof (hex_char_facts d H). lia. Qed.
+
+Section EscapeBodies.
+Variable is_print : Z -> bool.
+Variable is_word_char : Z -> bool.
+Hypothesis meta_not_word : forall c, In c meta -> is_word_char c = false.
+
+Definition rawrune (r : Z) : Prop := (is_print r = true /\ zmem r meta = false) \/ 65535 < r.
+
+Ltac body_ok_hex :=
+  unfold body_ok, first_ok, no_brace; cbv beta iota; cbn [forallb];
+  rewrite ?hex_nonneg_b, ?hex_ne_brace_b by lia; reflexivity.
+
+Lemma escape_rune_inv2 r : valid_rune r ->
+  (escape_rune is_print r = [r] /\ rawrune r) \/
+  (exists body, escape_rune is_print r = 92 :: body /\ body_ok body = true /\
+                forall rest, scan_char_escape is_word_char (body ++ rest) = Ok (r, rest)).
+Proof.
+  intros Hv. unfold valid_rune in Hv. unfold escape_rune.
+  destruct (is_print r) eqn:Ep.
+  - destruct (zmem r meta) eqn:Em.
+    + right. exists [r]. split; [reflexivity|]. split.
+      * pose proof meta_first_ok as Hm. rewrite forallb_forall in Hm.
+        specialize (Hm r (zmem_In _ _ Em)).
+        apply andb_prop in Hm. destruct Hm as [Hm H0]. apply andb_prop in Hm. destruct Hm as [Hf Hxu].
+        unfold body_ok, no_brace. rewrite Hf. apply negb_true_iff in Hxu. rewrite Hxu.
+        cbn [forallb andb]. rewrite H0. reflexivity.
+      * intros rest. cbn [app]. apply (scan_meta is_word_char meta_not_word). exact Em.
+    + left. split; [reflexivity|]. left. split; [exact Ep | exact Em].
+  - destruct (65535 <? r) eqn:Ebmp.
+    { left. replace (r =? 7) with false by lia. replace (r =? 12) with false by lia.
+      replace (r =? 10) with false by lia. replace (r =? 13) with false by lia.
+      replace (r =? 9) with false by lia. replace (r =? 11) with false by lia.
+      replace (r <? 256) with false by lia. split; [reflexivity | right; lia]. }
+    right.
+    destruct (r =? 7) eqn:E7. { assert (r = 7) by lia; subst. exists [97]. repeat split; try discriminate. }
+    destruct (r =? 12) eqn:E12. { assert (r = 12) by lia; subst. exists [102]. repeat split; try discriminate. }
+    destruct (r =? 10) eqn:E10. { assert (r = 10) by lia; subst. exists [110]. repeat split; try discriminate. }
+    destruct (r =? 13) eqn:E13. { assert (r = 13) by lia; subst. exists [114]. repeat split; try discriminate. }
+    destruct (r =? 9) eqn:E9. { assert (r = 9) by lia; subst. exists [116]. repeat split; try discriminate. }
+    destruct (r =? 11) eqn:E11. { assert (r = 11) by lia; subst. exists [118]. repeat split; try discriminate. }
+    destruct (r <? 256) eqn:E256.
+    + destruct (r <? 16) eqn:E16.
+      * rewrite (to_hex_1 is_print is_word_char meta_not_word) by lia.
+        exists [120; 48; hex_char r]. split; [reflexivity|]. split; [body_ok_hex|].
+        intros rest. cbn [app]. change 48 with (hex_char 0).
+        rewrite (scan_hex_digits2 is_print is_word_char meta_not_word) by lia. first [reflexivity | f_equal; f_equal; lia | f_equal; lia].
+      * rewrite (to_hex_2 is_print is_word_char meta_not_word) by lia.
+        exists [120; hex_char (r / 16); hex_char (r mod 16)]. split; [reflexivity|]. split; [body_ok_hex|].
+        intros rest. cbn [app]. rewrite (scan_hex_digits2 is_print is_word_char meta_not_word) by lia. first [reflexivity | f_equal; f_equal; lia | f_equal; lia].
+    + destruct (r <? 4096) eqn:E4096.
+      * rewrite (to_hex_3 is_print is_word_char meta_not_word) by lia. cbn [length Nat.sub repeat app].
+        exists [117; 48; hex_char (r / 256); hex_char (r / 16 mod 16); hex_char (r mod 16)].
+        split; [reflexivity|]. split; [body_ok_hex|].
+        intros rest. cbn [app]. change 48 with (hex_char 0).
+        rewrite (scan_hex_digits4 is_print is_word_char meta_not_word) by lia. first [reflexivity | f_equal; f_equal; lia | f_equal; lia].
+      * rewrite (to_hex_4 is_print is_word_char meta_not_word) by lia. cbn [length Nat.sub repeat app].
+        exists [117; hex_char (r / 4096); hex_char (r / 256 mod 16); hex_char (r / 16 mod 16); hex_char (r mod 16)].
+        split; [reflexivity|]. split; [body_ok_hex|].
+        intros rest. cbn [app].
+        rewrite (scan_hex_digits4 is_print is_word_char meta_not_word) by lia. first [reflexivity | f_equal; f_equal; lia | f_equal; lia].
+Qed.
+
+End EscapeBodies.
+
+(* ------------------------------------------------------------------------------------------ *)
+(* the option-aware escape scanner agrees with Unescape's on everything Escape writes *)
+
+Section Bridge.
+Variable is_word_char : Z -> bool.
+Variable to_lower : Z -> Z.
+
+Lemma pl_lookup_simple ch :
+  pl_lookup ch pl_simple_escapes =
+  if ch =? 97 then Some 7 else if ch =? 98 then Some 8 else if ch =? 101 then Some 27
+  else if ch =? 102 then Some 12 else if ch =? 110 then Some 10 else if ch =? 114 then Some 13
+  else if ch =? 116 then Some 9 else if ch =? 118 then Some 11 else None.
+Proof. reflexivity. Qed.
+
+Lemma pl_scan_char_escape_bridge o body rest x :
+  body_ok body = true ->
+  scan_char_escape is_word_char (body ++ rest) = Ok x ->
+  pl_scan_char_escape is_word_char o (body ++ rest) = Ok x.
+Proof.
+  intros Hok. destruct body as [|c t]; [discriminate|].
+  unfold body_ok in Hok. apply andb_prop in Hok. destruct Hok as [Hok _].
+  apply andb_prop in Hok. destruct Hok as [Hf Hb].
+  assert (Hoct : (48 <=? c) && (c <=? 55) = false).
+  { unfold first_ok in Hf. repeat (apply andb_prop in Hf; destruct Hf as [Hf ?]). lia. }
+  cbn [app]. unfold scan_char_escape, pl_scan_char_escape. rewrite Hoct.
+  unfold no_brace in Hb.
+  destruct (c =? 120) eqn:Ex.
+  { cbn [orb] in Hb. destruct t as [|d t']; [discriminate|]. cbn [app].
+    apply negb_true_iff in Hb. rewrite Hb. unfold pl_x_digits. intros H. rewrite H. reflexivity. }
+  destruct (c =? 117) eqn:Eu.
+  { cbn [orb] in Hb. destruct t as [|d t']; [discriminate|]. cbn [app].
+    apply negb_true_iff in Hb. rewrite Hb. cbn [andb]. unfold pl_u_digits. intros H. rewrite H. reflexivity. }
+  rewrite pl_lookup_simple.
+  destruct (c =? 97); [auto|]. destruct (c =? 98); [auto|]. destruct (c =? 101); [auto|].
+  destruct (c =? 102); [auto|]. destruct (c =? 110); [auto|]. destruct (c =? 114); [auto|].
+  destruct (c =? 116); [auto|]. destruct (c =? 118); [auto|].
+  destruct (c =? 99). { intros H. rewrite H. reflexivity. }
+  destruct (is_word_char c); [discriminate|]. rewrite andb_false_r. auto.
+Qed.
+
+Lemma scan_backslash_first_ok o so c p1 :
+  first_ok c = true ->
+  scan_backslash is_word_char to_lower o so (c :: p1) = char_code is_word_char to_lower o so (c :: p1).
+Proof.
+  intros Hf. unfold first_ok in Hf.
+  repeat (apply andb_prop in Hf; let H := fresh "Hc" in destruct Hf as [Hf H]).
+  apply negb_true_iff in Hf, Hc, Hc0, Hc1, Hc2, Hc3, Hc4, Hc5.
+  unfold scan_backslash. rewrite Hf, Hc5, Hc4, Hc3. cbn [orb].
+  unfold scan_basic_backslash. rewrite Hc2, Hc1, Hc0. cbn [andb orb].
+  rewrite andb_false_r. cbn [andb].
+  replace ((49 <=? c) && (c <=? 57)) with false by lia. reflexivity.
+Qed.
+
+Lemma scan_backslash_body o so body rest r :
+  body_ok body = true ->
+  (forall rest, scan_char_escape is_word_char (body ++ rest) = Ok (r, rest)) ->
+  scan_backslash is_word_char to_lower o so (body ++ rest) =
+  Ok (BGot (if so then EsNil else EsChar (if useI o then to_lower r else r)) rest).
+Proof.
+  intros Hok Hscan. pose proof (pl_scan_char_escape_bridge o body rest (r, rest) Hok (Hscan rest)) as Hb.
+  destruct body as [|c t]; [discriminate|].
+  unfold body_ok in Hok. apply andb_prop in Hok. destruct Hok as [Hok _].
+  apply andb_prop in Hok. destruct Hok as [Hf _].
+  cbn [app] in *. rewrite (scan_backslash_first_ok o so c (t ++ rest) Hf).
+  unfold char_code. rewrite Hb. cbn [bind]. destruct so; reflexivity.
+Qed.
+
+End Bridge.
+
+(* ------------------------------------------------------------------------------------------ *)
+(* literal leaves and the concatenation reduction *)
+
+Definition lit_leaf (o' : Z) (x : pnode) : Prop :=
+  match x with
+  | PnOne o _ => o = o'
+  | PnMulti o m => o = o' /\ (2 <= length m)%nat
+  | _ => False
+  end.
+Definition leaf_str (x : pnode) : list Z := match str_of x with Some (_, s) => s | None => [] end.
+Definition spelling (l : list pnode) : list Z := flat_map leaf_str l.
+
+(* the tree of a literal: what reduceConcatenation leaves of any run of One/Multi nodes *)
+Definition lit_nodes (o' : Z) (s : list Z) : list pnode :=
+  match s with
+  | [] => []
+  | [c] => [PnOne o' c]
+  | _ => [PnMulti o' s]
+  end.
+Definition lit_body (o' : Z) (s : list Z) : pbody :=
+  match lit_nodes o' s with
+  | [] => BEmpty o'
+  | x :: _ => BSingle x
+  end.
+
+Lemma lit_leaf_str_nonempty o' x : lit_leaf o' x -> leaf_str x <> [].
+Proof.
+  destruct x; cbn; try contradiction; intros H.
+  - discriminate.
+  - destruct H as [_ H]. destruct s; [cbn in H; lia | discriminate].
+Qed.
+
+Lemma lit_leaf_str_of o' x : lit_leaf o' x -> str_of x = Some (o', leaf_str x).
+Proof. destruct x; cbn; try contradiction; intros H; [subst; reflexivity | destruct H; subst; reflexivity]. Qed.
+
+Lemma combine_lit o' x y : lit_leaf o' x \/ (exists t o, x = PnType t o) -> combine x y = None.
+Proof. intros [H|[t [o H]]]; [destruct x; cbn in H; try contradiction; reflexivity | subst; reflexivity]. Qed.
+
+Definition plain (o' : Z) (x : pnode) : Prop := lit_leaf o' x \/ (exists t o, x = PnType t o).
+
+Lemma coalesce_plain o' l : forall x, plain o' x -> Forall (plain o') l -> coalesce x l = x :: l.
+Proof.
+  induction l as [|y l IH]; intros x Hx Hl; cbn [coalesce]; [reflexivity|].
+  rewrite (combine_lit o' x y Hx). inversion Hl; subst. f_equal. apply IH; assumption.
+Qed.
+
+Lemma merge_multi o' l : Forall (lit_leaf o') l ->
+  forall s0, merge_strs (Some (PnMulti o' s0)) l = [PnMulti o' (s0 ++ spelling l)].
+Proof.
+  induction l as [|x l IH]; intros Hl s0; cbn [merge_strs flush spelling flat_map].
+  - rewrite app_nil_r. reflexivity.
+  - inversion Hl as [|x' l' Hx Hl']; subst.
+    rewrite (lit_leaf_str_of o' x Hx). cbn [str_of]. rewrite Z.eqb_refl.
+    rewrite IH by assumption. rewrite <- app_assoc. reflexivity.
+Qed.
+
+Lemma merge_lit_pending o' x l : lit_leaf o' x -> Forall (lit_leaf o') l -> l <> [] ->
+  merge_strs (Some x) l = [PnMulti o' (leaf_str x ++ spelling l)].
+Proof.
+  intros Hx Hl Hne. destruct l as [|y l]; [congruence|].
+  inversion Hl as [|y' l' Hy Hl']; subst.
+  cbn [merge_strs]. rewrite (lit_leaf_str_of o' y Hy), (lit_leaf_str_of o' x Hx). rewrite Z.eqb_refl.
+  rewrite (merge_multi o' l Hl'). cbn [spelling flat_map]. rewrite <- app_assoc. reflexivity.
+Qed.
+
+Lemma two_or_more {A} (a b : list A) : a <> [] -> b <> [] -> (2 <= length (a ++ b))%nat.
+Proof. destruct a; [congruence|]. destruct b; [congruence|]. intros _ _. rewrite app_length. cbn. lia. Qed.
+
+Lemma spelling_nonempty o' l : Forall (lit_leaf o') l -> l <> [] -> spelling l <> [].
+Proof.
+  intros Hl Hne. destruct l as [|x l]; [congruence|]. inversion Hl; subst.
+  cbn [spelling flat_map]. pose proof (lit_leaf_str_nonempty o' x H1) as Hs.
+  destruct (leaf_str x); [congruence | discriminate].
+Qed.
+
+Lemma lit_nodes_long o' s : (2 <= length s)%nat -> lit_nodes o' s = [PnMulti o' s].
+Proof. destruct s as [|a [|b s]]; cbn [length]; try lia. reflexivity. Qed.
+
+(* all the literal leaves of a run collapse into the node of their spelling *)
+Lemma merge_lit_run o' l : Forall (lit_leaf o') l -> l <> [] ->
+  forall rest, (match rest with [] => True | y :: _ => str_of y = None end) ->
+  merge_strs None (l ++ rest) = lit_nodes o' (spelling l) ++ merge_strs None rest.
+Proof.
+  intros Hl Hne rest Hrest. destruct l as [|x l]; [congruence|].
+  inversion Hl as [|x' l' Hx Hl']; subst.
+  cbn [app merge_strs]. rewrite (lit_leaf_str_of o' x Hx).
+  (* generalise over the pending node *)
+  assert (G : forall l pv, Forall (lit_leaf o') l -> lit_leaf o' pv ->
+            merge_strs (Some pv) (l ++ rest) =
+            (match l with [] => [pv] | _ => [PnMulti o' (leaf_str pv ++ spelling l)] end) ++ merge_strs None rest).
+  { clear - Hrest. intros l. induction l as [|y l IH]; intros pv Hl Hpv.
+    - cbn [app]. destruct rest as [|z rest]; [reflexivity|]. cbn [merge_strs]. rewrite Hrest. reflexivity.
+    - inversion Hl as [|y' l' Hy Hl']; subst. cbn [app merge_strs].
+      rewrite (lit_leaf_str_of o' y Hy), (lit_leaf_str_of o' pv Hpv). rewrite Z.eqb_refl.
+      assert (Hm : lit_leaf o' (PnMulti o' (leaf_str pv ++ leaf_str y))).
+      { split; [reflexivity|]. apply two_or_more; eapply lit_leaf_str_nonempty; eassumption. }
+      rewrite (IH _ Hl' Hm). cbn [spelling flat_map leaf_str str_of].
+      destruct l; [cbn [flat_map app]; rewrite app_nil_r; reflexivity|]. rewrite <- app_assoc. reflexivity. }
+  rewrite (G l x Hl' Hx). f_equal.
+  cbn [spelling flat_map]. destruct l as [|y l].
+  - rewrite app_nil_r. destruct x; cbn in Hx; try contradiction.
+    + subst. reflexivity.
+    + destruct Hx as [Ho Hx]. cbn [leaf_str str_of]. rewrite lit_nodes_long by assumption. subst. reflexivity.
+  - rewrite lit_nodes_long; [reflexivity|].
+    apply two_or_more; [eapply lit_leaf_str_nonempty; eassumption|].
+    apply (spelling_nonempty o'); [assumption | discriminate].
+Qed.
+
+(* ------------------------------------------------------------------------------------------ *)
+(* scanRegex on Escape's output *)
+
+Lemma meta_members : zmem 35 meta = true /\ zmem 123 meta = true /\ zmem 92 meta = true /\
+                     zmem 40 meta = true /\ zmem 41 meta = true /\ zmem 91 meta = true /\ zmem 32 meta = true.
+Proof. vm_compute. repeat split. Qed.
+
+Section Main.
+Variable is_print : Z -> bool.
+Variable is_word_char : Z -> bool.
+Variable to_lower : Z -> Z.
+Variable is_cased : Z -> bool.
+Variable participates : Z -> bool.
+Variable ci_single : Z -> bool.
+Variable ci_set_id : Z -> Z.
+Hypothesis meta_not_word : forall c, In c meta -> is_word_char c = false.
+Variable o : Z.
+Hypothesis HI : useI o = false.
+(* only needed under IgnorePatternWhitespace: TAB LF VT FF CR are not printable, so Escape writes
+   them as \t \n \v \f \r (checked against unicode.IsPrint by leg c19-parse) *)
+Hypothesis HX : useX o = true -> forall c, 9 <= c <= 13 -> is_print c = false.
+
+Local Notation SB := (scan_backslash is_word_char to_lower).
+Local Notation SBODY := (scan_body is_word_char to_lower is_cased participates ci_single ci_set_id).
+Local Notation SL := (scan_loop is_word_char to_lower is_cased participates ci_single ci_set_id).
+Local Notation ATC := (add_to_concat is_cased participates ci_single ci_set_id).
+Local Notation MK1 := (mk_one is_cased ci_single ci_set_id).
+Local Notation PRE := (prepass is_word_char to_lower).
+Local Notation raw := (rawrune is_print).
+Local Notation esc := (escape is_print).
+
+Lemma raw_not_stopper_x r : raw r -> useX o = true -> is_stopper_x r = false.
+Proof.
+  intros [[Hp Hm]|Hbig] EX.
+  - destruct (is_stopper_x r) eqn:E; [|reflexivity].
+    apply stopper_x_in_meta in E. destruct E as [E|E]; [congruence|].
+    rewrite (HX EX r E) in Hp. discriminate.
+  - unfold is_stopper_x, pl_stopperx_bound. lia.
+Qed.
+
+Lemma raw_not_special r : raw r -> is_special r = false.
+Proof.
+  intros [[Hp Hm]|Hbig].
+  - destruct (is_special r) eqn:E; [|reflexivity]. apply special_in_meta in E. congruence.
+  - unfold is_special, pl_special_bound. lia.
+Qed.
+
+Lemma raw_not_stopper r : raw r -> is_stopper o r = false.
+Proof.
+  intros Hr. unfold is_stopper. case_eq (useX o); intros EX;
+    [apply raw_not_stopper_x; assumption | apply raw_not_special; assumption].
+Qed.
+
+Lemma raw_not_quantifier r : raw r -> is_quantifier r = false.
+Proof.
+  intros Hr. destruct (is_quantifier r) eqn:E; [|reflexivity].
+  apply quantifier_is_special in E. rewrite (raw_not_special r Hr) in E. discriminate.
+Qed.
+
+Lemma raw_not_chars r : raw r -> r <> 35 /\ r <> 123 /\ r <> 92 /\ is_paren r = false.
+Proof.
+  destruct meta_members as [M35 [M123 [M92 [M40 [M41 [M91 _]]]]]].
+  intros [[Hp Hm]|Hbig]; [|unfold is_paren; lia].
+  repeat split; try (intros ->; congruence).
+  unfold is_paren. destruct (r =? 40) eqn:E1; [assert (r = 40) by lia; subst; congruence|].
+  destruct (r =? 41) eqn:E2; [assert (r = 41) by lia; subst; congruence|].
+  destruct (r =? 91) eqn:E3; [assert (r = 91) by lia; subst; congruence|]. reflexivity.
+Qed.
+
+Lemma raw_blank_fix r t : raw r -> scan_blank o (r :: t) = r :: t.
+Proof.
+  intros Hr. unfold scan_blank. case_eq (useX o); intros EX; [|reflexivity].
+  apply blank_x_fix; [|apply (raw_not_chars r Hr)].
+  destruct (is_space r) eqn:E; [|reflexivity].
+  destruct Hr as [[Hp Hm]|Hbig].
+  - apply space_in_meta in E. destruct E as [E|E]; [congruence|]. rewrite (HX EX r E) in Hp. discriminate.
+  - unfold is_space, pl_space_bound in E. lia.
+Qed.
+
+Lemma backslash_blank_fix t : scan_blank o (92 :: t) = 92 :: t.
+Proof.
+  unfold scan_blank. case_eq (useX o); intros EX0; [|reflexivity].
+  apply blank_x_fix; [apply backslash_special | lia].
+Qed.
+
+(* patterns that start like Escape output: empty, a raw rune, or a backslash *)
+Definition good_head (p : list Z) : Prop :=
+  match p with [] => True | c :: _ => raw c \/ c = 92 end.
+
+Lemma good_head_blank p : good_head p -> scan_blank o p = p.
+Proof.
+  destruct p as [|c t]; intros H.
+  - unfold scan_blank. case (useX o); reflexivity.
+  - destruct H as [H| ->]; [apply raw_blank_fix; assumption | apply backslash_blank_fix].
+Qed.
+
+Lemma good_head_not_quantifier p : good_head p -> is_true_quantifier p = false.
+Proof.
+  destruct p as [|c t]; intros H; [reflexivity|]. cbn [is_true_quantifier].
+  destruct H as [H| ->].
+  - destruct (raw_not_chars c H) as [_ [H123 _]]. replace (c =? 123) with false by lia. cbn [negb].
+    apply raw_not_quantifier. assumption.
+  - reflexivity.
+Qed.
+
+Lemma is_stopper_backslash : is_stopper o 92 = true.
+Proof. unfold is_stopper. case (useX o); apply backslash_special. Qed.
+
+Lemma take_run_raw s1 : Forall raw s1 -> forall tail,
+  (tail = [] \/ exists t, tail = 92 :: t) -> take_run o (s1 ++ tail) = (s1, tail).
+Proof.
+  induction s1 as [|r s1 IH]; intros Hall tail Ht.
+  - cbn [app]. destruct Ht as [-> | [t ->]]; [reflexivity|].
+    cbn [take_run]. rewrite is_stopper_backslash. reflexivity.
+  - inversion Hall as [|r' s' Hr Hall']; subst. cbn [app take_run].
+    rewrite (raw_not_stopper r Hr). cbn [andb]. rewrite (IH Hall' tail Ht). reflexivity.
+Qed.
+
+Lemma atc_lit s1 : s1 <> [] -> Forall (lit_leaf (clear_I o)) (ATC o s1) /\ spelling (ATC o s1) = s1.
+Proof.
+  intros Hne. unfold add_to_concat, mk_one. rewrite HI. cbn [negb orb andb].
+  destruct s1 as [|a [|b s1]]; [congruence| |].
+  - split; [constructor; [reflexivity | constructor] | reflexivity].
+  - split; [constructor; [split; [reflexivity | cbn [length]; lia] | constructor]|].
+    cbn [spelling flat_map leaf_str str_of]. apply app_nil_r.
+Qed.
+
+Lemma atc_nil : ATC o [] = [].
+Proof. reflexivity. Qed.
+
+(* one round of the outer loop: a run of raw runes in front of the end or of a backslash *)
+Lemma scan_body_run rec s1 tail acc : Forall raw s1 -> s1 <> [] ->
+  (tail = [] \/ exists t, tail = 92 :: t) ->
+  SBODY rec o (s1 ++ tail) acc = SBODY rec o tail (acc ++ ATC o s1).
+Proof.
+  intros Hall Hne Ht.
+  assert (Hh : good_head (s1 ++ tail)).
+  { destruct s1 as [|r s1]; [congruence|]. inversion Hall; subst. left. assumption. }
+  unfold scan_body at 1. rewrite (good_head_blank _ Hh), (take_run_raw s1 Hall tail Ht).
+  destruct (s1 ++ tail) as [|c0 t0] eqn:Eapp.
+  { destruct s1; [congruence | discriminate]. }
+  destruct Ht as [-> | [t ->]].
+  - (* the end *)
+    replace (scan_blank o []) with (@nil Z) by (unfold scan_blank; case (useX o); reflexivity).
+    reflexivity.
+  - rewrite backslash_blank_fix.
+    destruct backslash_special as [Hsp [_ [Hq _]]]. rewrite Hsp, Hq. cbn [negb]. rewrite Z.eqb_refl.
+    unfold scan_body. rewrite backslash_blank_fix.
+    cbn [take_run]. rewrite is_stopper_backslash. cbn [andb negb orb Z.eqb Pos.eqb].
+    rewrite backslash_blank_fix. rewrite Hsp, Hq. cbn [negb]. rewrite Z.eqb_refl.
+    rewrite atc_nil, app_nil_r. reflexivity.
+Qed.
+
+(* one round at a backslash *)
+Lemma scan_body_backslash rec p4 acc :
+  SBODY rec o (92 :: p4) acc =
+  (do r <- SB o false p4 ;
+   match r with
+   | BOut => Ok SOutside
+   | BGot e p5 =>
+       match node_of_esc is_cased ci_single ci_set_id o e with
+       | None => Crash 4
+       | Some n => let p6 := scan_blank o p5 in
+                   if is_true_quantifier p6 then Ok SOutside else rec p6 (acc ++ [n])
+       end
+   end).
+Proof.
+  unfold scan_body. rewrite backslash_blank_fix.
+  cbn [take_run]. rewrite is_stopper_backslash. cbn [andb negb orb Z.eqb Pos.eqb].
+  rewrite backslash_blank_fix.
+  destruct backslash_special as [Hsp [_ [Hq _]]]. rewrite Hsp, Hq. cbn [negb]. rewrite Z.eqb_refl.
+  rewrite atc_nil, app_nil_r. reflexivity.
+Qed.
+
+
+Lemma esc_cons r s : esc (r :: s) = escape_rune is_print r ++ esc s.
+Proof. reflexivity. Qed.
+
+(* s = its leading run of raw runes, then (if anything) a rune that Escape rewrites *)
+Lemma raw_prefix s : Forall valid_rune s ->
+  exists s1 s2, s = s1 ++ s2 /\ Forall raw s1 /\ esc s = s1 ++ esc s2 /\ Forall valid_rune s2 /\
+    (s2 = [] \/ exists r s3 body, s2 = r :: s3 /\ escape_rune is_print r = 92 :: body /\
+                  body_ok body = true /\
+                  (forall rest, scan_char_escape is_word_char (body ++ rest) = Ok (r, rest))).
+Proof.
+  induction s as [|r s IH]; intros Hv.
+  - exists [], []. split; [reflexivity|]. split; [constructor|]. split; [reflexivity|]. split; [constructor|]. left; reflexivity.
+  - inversion Hv as [|r' s' Hr Hs]; subst.
+    destruct (escape_rune_inv2 is_print is_word_char meta_not_word r Hr) as [[Hraw Hrr] | [body [Hesc [Hok Hscan]]]].
+    + destruct (IH Hs) as [s1 [s2 [E1 [Hall [E2 [Hv2 Hcase]]]]]].
+      exists (r :: s1), s2. split; [cbn [app]; congruence|]. split; [constructor; assumption|].
+      split; [rewrite esc_cons, Hraw, E2; reflexivity|]. split; assumption.
+    + exists [], (r :: s). split; [reflexivity|]. split; [constructor|]. split; [reflexivity|].
+      split; [assumption|]. right. exists r, s, body. repeat split; assumption.
+Qed.
+
+Lemma good_head_esc s tail : Forall valid_rune s -> (tail = [] \/ exists t, tail = 92 :: t) ->
+  good_head (esc s ++ tail).
+Proof.
+  intros Hv Ht. destruct s as [|r s].
+  - cbn [app]. destruct Ht as [-> | [t ->]]; [exact I | right; reflexivity].
+  - inversion Hv as [|r' s' Hr Hs]; subst. rewrite esc_cons.
+    destruct (escape_rune_inv2 is_print is_word_char meta_not_word r Hr) as [[Hraw Hrr] | [body [Hesc _]]].
+    + rewrite Hraw. left. assumption.
+    + rewrite Hesc. right. reflexivity.
+Qed.
+
+Definition tail_spec (tail : list Z) (tl : list pnode) : Prop :=
+  (tail = [] \/ exists t, tail = 92 :: t) /\
+  forall f acc, (length tail < f)%nat -> SL f o tail acc = Ok (SLeaves (acc ++ tl)).
+
+Lemma scan_escape n : forall s, (length s <= n)%nat -> Forall valid_rune s ->
+  forall tail tl, tail_spec tail tl ->
+  forall f acc, (length (esc s ++ tail) < f)%nat ->
+  exists ls, SL f o (esc s ++ tail) acc = Ok (SLeaves (acc ++ ls ++ tl)) /\
+             Forall (lit_leaf (clear_I o)) ls /\ spelling ls = s.
+Proof.
+  induction n as [|n IH]; intros s Hlen Hv tail tl [Ht Hspec] f acc Hf.
+  - destruct s; [|cbn in Hlen; lia]. cbn [escape flat_map app] in *.
+    exists []. split; [apply Hspec; assumption|]. split; [constructor | reflexivity].
+  - destruct (raw_prefix s Hv) as [s1 [s2 [E1 [Hall [E2 [Hv2 Hcase]]]]]].
+    destruct f as [|f']; [lia|].
+    destruct Hcase as [-> | [r [s3 [body [-> [Hesc [Hok Hscan]]]]]]].
+    + (* the whole of s is raw *)
+      rewrite app_nil_r in E1. subst s1. cbn [escape flat_map] in E2. rewrite app_nil_r in E2.
+      rewrite E2 in *. destruct s as [|r0 s0].
+      * cbn [app] in *. exists []. split; [apply Hspec; assumption|]. split; [constructor | reflexivity].
+      * cbn [scan_loop]. rewrite (scan_body_run (SL f' o) (r0 :: s0) tail acc Hall ltac:(discriminate) Ht).
+        change (SBODY (SL f' o) o tail (acc ++ ATC o (r0 :: s0))) with (SL (S f') o tail (acc ++ ATC o (r0 :: s0))).
+        rewrite Hspec by (rewrite app_length in Hf; lia).
+        destruct (atc_lit (r0 :: s0) ltac:(discriminate)) as [Hl Hs].
+        exists (ATC o (r0 :: s0)). split; [rewrite (app_assoc acc); reflexivity|]. split; assumption.
+    + (* raw run, then an escaped rune *)
+      rewrite esc_cons, Hesc in E2.
+      assert (Eall : esc s ++ tail = s1 ++ 92 :: (body ++ (esc s3 ++ tail))).
+      { rewrite E2. rewrite <- !app_assoc. cbn [app]. reflexivity. }
+      rewrite Eall in *.
+      inversion Hv2 as [|r' s' Hr Hv3]; subst r' s'.
+      (* the round that starts at the backslash, with whatever was accumulated *)
+      assert (Step : forall acc1 pre, Forall (lit_leaf (clear_I o)) pre -> spelling pre = s1 -> acc1 = acc ++ pre ->
+                exists ls, SBODY (SL f' o) o (92 :: (body ++ (esc s3 ++ tail))) acc1 = Ok (SLeaves (acc ++ ls ++ tl)) /\
+                           Forall (lit_leaf (clear_I o)) ls /\ spelling ls = s).
+      { intros acc1 pre Hpre Hsp ->.
+        rewrite scan_body_backslash.
+        rewrite (scan_backslash_body is_word_char to_lower o false body (esc s3 ++ tail) r Hok Hscan).
+        cbn [bind]. rewrite HI. cbn [node_of_esc]. unfold mk_one. rewrite HI. cbn [andb].
+        assert (Hg : good_head (esc s3 ++ tail)) by (apply good_head_esc; assumption).
+        cbv zeta. rewrite (good_head_blank _ Hg), (good_head_not_quantifier _ Hg).
+        assert (Hlen3 : (length s3 <= n)%nat).
+        { rewrite E1, app_length in Hlen. cbn [length] in Hlen. lia. }
+        assert (Hf3 : (length (esc s3 ++ tail) < f')%nat).
+        { rewrite app_length in Hf. cbn [length] in Hf. rewrite app_length in Hf. lia. }
+        destruct (IH s3 Hlen3 Hv3 tail tl (conj Ht Hspec) f' ((acc ++ pre) ++ [PnOne (clear_I o) r]) Hf3)
+          as [ls3 [Hrun [Hl3 Hs3]]].
+        rewrite Hrun. exists (pre ++ [PnOne (clear_I o) r] ++ ls3).
+        split; [rewrite <- !app_assoc; reflexivity|].
+        split.
+        - apply Forall_app. split; [assumption|]. constructor; [reflexivity | assumption].
+        - unfold spelling in *. rewrite flat_map_app. cbn [flat_map app leaf_str str_of].
+          rewrite Hsp, Hs3, E1. reflexivity. }
+      cbn [scan_loop]. destruct s1 as [|r0 s0].
+      * cbn [app]. apply (Step acc []); [constructor | reflexivity | rewrite app_nil_r; reflexivity].
+      * rewrite (scan_body_run (SL f' o) (r0 :: s0) _ acc Hall ltac:(discriminate) (or_intror (ex_intro _ _ eq_refl))).
+        destruct (atc_lit (r0 :: s0) ltac:(discriminate)) as [Hl Hs].
+        apply (Step _ (ATC o (r0 :: s0))); [assumption | assumption | reflexivity].
+Qed.
+
+End Main.
